@@ -86,8 +86,81 @@ let compile_of (input : n list) : string =
     String.concat "|" [ "done"; show_err e; hex_of_bytes (tree_dump t O); hex_of_bytes ctext; opt_err cerr;
                         show_entries adds; hex_of_bytes gtext; opt_err gerr; show_adds adds ]
 
+(* ---- proxy histories: events separated by ';', fields by ',' ---- *)
+let z_of_int (i : int) : z = if i = 0 then Z0 else if i > 0 then Zpos (pos_of_int i) else Zneg (pos_of_int (-i))
+
+let method_of (s : string) : method0 =
+  match s with
+  | "completion" -> MCompletion | "hover" -> MHover | "definition" -> MDefinition | "declaration" -> MDeclaration
+  | "typeDefinition" -> MTypeDefinition | "implementation" -> MImplementation | "references" -> MReferences
+  | "signatureHelp" -> MSignatureHelp | "prepareRename" -> MPrepareRename | "onTypeFormatting" -> MOnTypeFormatting
+  | "moniker" -> MMoniker | "codeLens" -> MCodeLens | "codeAction" -> MCodeAction
+  | _ -> failwith ("method " ^ s)
+
+let method_name (m : method0) : string =
+  match m with
+  | MCompletion -> "completion" | MHover -> "hover" | MDefinition -> "definition" | MDeclaration -> "declaration"
+  | MTypeDefinition -> "typeDefinition" | MImplementation -> "implementation" | MReferences -> "references"
+  | MSignatureHelp -> "signatureHelp" | MPrepareRename -> "prepareRename" | MOnTypeFormatting -> "onTypeFormatting"
+  | MMoniker -> "moniker" | MCodeLens -> "codeLens" | MCodeAction -> "codeAction"
+
+let mkpos l c = { p_line = z_of_int l; p_char = z_of_int c }
+let mkrange a b c d = { r_start = mkpos a b; r_end = mkpos c d }
+
+let parse_locs (s : string) : loc list option =
+  if s = "-" then None
+  else Some (List.map (fun x -> match String.split_on_char ':' x with
+      | [ u; a; b; c; d ] -> { l_uri = bytes_of_hex u; l_range = mkrange (int_of_string a) (int_of_string b) (int_of_string c) (int_of_string d) }
+      | _ -> failwith "loc") (if s = "" then [] else String.split_on_char '/' s))
+
+let parse_diags (s : string) : diag list =
+  List.map (fun x -> match String.split_on_char ':' x with
+      | [ a; b; c; d; m ] -> { d_range = mkrange (int_of_string a) (int_of_string b) (int_of_string c) (int_of_string d); d_msg = bytes_of_hex m; d_goht = false }
+      | _ -> failwith "diag") (if s = "" then [] else String.split_on_char '/' s)
+
+let parse_event (s : string) : event =
+  match String.split_on_char ',' s with
+  | [ "O"; u; lang; v; t ] -> EOpen (bytes_of_hex u, bytes_of_hex lang, z_of_int (int_of_string v), bytes_of_hex t)
+  | [ "C"; u; v; t ] -> EChange (bytes_of_hex u, z_of_int (int_of_string v), bytes_of_hex t)
+  | [ "C1"; u; v; t ] -> EChange1 (bytes_of_hex u, z_of_int (int_of_string v), bytes_of_hex t)
+  | [ "C2"; u; v ] -> EChange2 (bytes_of_hex u, z_of_int (int_of_string v))
+  | [ "X"; u ] -> EClose (bytes_of_hex u)
+  | [ "S"; u; t ] -> ESave (bytes_of_hex u, if t = "-" then None else Some (bytes_of_hex t))
+  | [ "R"; m; u; l; c; a ] -> EReq (method_of m, bytes_of_hex u, mkpos (int_of_string l) (int_of_string c), parse_locs a)
+  | [ "D"; u; d ] -> EGoDiag (bytes_of_hex u, parse_diags d)
+  | [ "M"; t ] -> EGoMsg (bytes_of_hex t)
+  | _ -> failwith ("event " ^ s)
+
+let md5 (b : n list) : string = Digest.to_hex (Digest.string (ascii_of_bytes b))
+let show_pos (p : pos) = Printf.sprintf "%d:%d" (int_of_z p.p_line) (int_of_z p.p_char)
+let show_range (r : range) = show_pos r.r_start ^ ":" ^ show_pos r.r_end
+let show_loc (l : loc) = hex_of_bytes l.l_uri ^ ":" ^ show_range l.l_range
+let show_diag (d : diag) = show_range d.d_range ^ ":" ^ (if d.d_goht then "g" else "c") ^ ":" ^ md5 d.d_msg
+
+let show_out (o : out) : string =
+  match o with
+  | Ds (DsOpen (u, lang, v, t)) -> Printf.sprintf "ds.didOpen.%s.%s.%d.%s" (hex_of_bytes u) (hex_of_bytes lang) (int_of_z v) (md5 t)
+  | Ds (DsChange (u, v, t)) -> Printf.sprintf "ds.didChange.%s.%d.%s" (hex_of_bytes u) (int_of_z v) (md5 t)
+  | Ds (DsClose u) -> "ds.didClose." ^ hex_of_bytes u
+  | Ds (DsSave (u, t)) -> "ds.didSave." ^ hex_of_bytes u ^ "." ^ (match t with None -> "-" | Some x -> md5 x)
+  | Ds (DsReq (m, u, p)) -> Printf.sprintf "ds.%s.%s.%s" (method_name m) (hex_of_bytes u) (show_pos p)
+  | Cl (ClDiag (u, ds)) -> "cl.diag." ^ hex_of_bytes u ^ "." ^ String.concat "/" (List.map show_diag ds)
+  | Cl (ClMsg t) -> "cl.msg." ^ md5 t
+
+let show_reply (r : reply) : string =
+  match r with
+  | RNone -> "r.ok." | RError -> "r.err." | REmpty -> "r.ok." | RNil -> "r.ok."
+  | RLocs ls -> "r.ok." ^ String.concat "/" (List.map show_loc ls)
+  | RAction (ds, es) -> "r.ok." ^ String.concat "/" (List.map show_loc es) ^ "#" ^ String.concat "/" (List.map show_range ds)
+
+let proxy_run (s : string) : string =
+  let evs = List.map parse_event (String.split_on_char ';' s) in
+  let (_, tr) = run model_compile ps_init evs in
+  String.concat "|" (List.map (fun (outs, r) -> String.concat "+" (List.map show_out outs @ [ show_reply r ])) tr)
+
 let handle (line : string) : string =
   match String.split_on_char ' ' line with
+  | [ "proxy"; h ] -> proxy_run h
   | "addimport" :: pkg :: lines ->
     let (i, text) = proxy_add_import (List.map bytes_of_hex lines) (bytes_of_hex pkg) in
     Printf.sprintf "ok %d %s" (int_of_nat i) (hex_of_bytes text)
